@@ -22,10 +22,13 @@ TIERS = {
 SELFTEST_RUNS = 400
 RULE = (
   'each run = one history (<= 25 ops) over a heap of nested source dicts (depth <= 4; int/str/tuple/array/list leaves), '
-  'FrozenDicts and API results: freeze, FrozenDict(src), unfreeze, copy(add_or_replace), pop, indexing, items/values/keys '
+  'FrozenDicts and API results: freeze, FrozenDict(src), unfreeze, copy(add_or_replace; the argument a dict, a FrozenDict or a '
+  'MappingProxyType / UserDict / ChainMap view over a dict the world keeps mutating), pop, indexing, items/values/keys '
   'iteration, pickle round trip, pytree flatten/unflatten, tree_map, equality+hash across insertion orders, mutation '
   'attempts through the API, interleaved with foreign mutations (the injected fault) of any plain dict the world holds; '
-  'struct runs: generated field layouts, replace/assign, pytree leaves, tree_map/vmap/grad reconstruction, and call histories '
+  'struct runs: generated field layouts (optionally below a generated base class: a plain frozen / non-frozen '
+  '@dataclasses.dataclass, a struct parent, a frozen=False struct parent - a non-frozen base must either be refused at class '
+  'definition or still give frozen instances), replace/assign, pytree leaves, tree_map/vmap/grad reconstruction, and call histories '
   'of one jitted function with a Python-side trace counter. Non-trivial = at least one foreign mutation fired or >= 3 API '
   'ops executed on a FrozenDict / struct instance; distinct = distinct event-log digest.'
 )
@@ -36,7 +39,7 @@ ASSUMPTIONS = [
   'the raw result of FrozenDict.tree_flatten_with_keys (an internal pytree-protocol method) is not mutated; flattening goes through jax.tree_util',
   'hash checks only where every leaf is hashable',
 ]
-PROBES = ['mutation_of_source_after_freeze', 'mutation_of_unfreeze_result', 'mutation_of_copy_argument', 'hash_checked', 'order_variant', 'pickle_roundtrip', 'struct_runs', 'retrace_on_static_change', 'cache_hit_on_dynamic_change', 'nested_frozen_in_source', 'struct_shared_metadata', 'hash_unhashable_raises', 'pickle_to_peer_interpreter', 'ctor_extend', 'struct_slots']
+PROBES = ['mutation_of_source_after_freeze', 'mutation_of_unfreeze_result', 'mutation_of_copy_argument', 'hash_checked', 'order_variant', 'pickle_roundtrip', 'struct_runs', 'retrace_on_static_change', 'cache_hit_on_dynamic_change', 'nested_frozen_in_source', 'struct_shared_metadata', 'hash_unhashable_raises', 'pickle_to_peer_interpreter', 'ctor_extend', 'struct_slots', 'copy_arg_mapping_wrapper', 'mutation_behind_mapping_wrapper', 'struct_inherited_layout', 'struct_unfrozen_base_refused', 'struct_frozen_checked']
 
 
 def setup_worker(w, tier):
@@ -150,6 +153,12 @@ def gen_tree(g, depth, hashable):
   return {'d': [[k, out[k]] for k in ks]}
 
 
+COPY_WRAPS = [None, None, 'proxy', 'userdict', 'chainmap', 'chainmap_child']
+# base class kinds of generated struct layouts; the first two are not frozen
+STRUCT_PARENTS = ['plain', 'struct_unfrozen', 'plain_frozen', 'struct']
+UNFROZEN_PARENTS = ('plain', 'struct_unfrozen')
+
+
 def generate(rs, tier):
   g = stream(rs, 'gen')
   if g.random() < 0.18:
@@ -167,6 +176,8 @@ def generate(rs, tier):
       ops.append(dict(op='unfreeze', fd=a, how=g.choice(['method', 'fn'])))
     elif r < 0.36:
       ops.append(dict(op='copy', fd=a, add=b, how=g.choice(['method', 'fn']), add_kind=g.choice(['dict', 'fd', 'mutable'])))
+      # add_or_replace is annotated Mapping: sometimes a read-only view / UserDict / ChainMap over the dict, not the dict itself
+      ops[-1]['wrap'] = g.choice(COPY_WRAPS)
     elif r < 0.44:
       ops.append(dict(op='pop', fd=a, key=b, how=g.choice(['method', 'fn'])))
     elif r < 0.54:
@@ -219,7 +230,13 @@ def gen_struct(g):
       ops.append(dict(op='grad', inst=a))
     else:
       ops.append(dict(op='new', val=g.randrange(1, 6)))
-  return dict(engine='valueworld', knobs=dict(kind='struct', fields=fields, base=g.choice(['dataclass', 'PyTreeNode', 'dataclass_slots']), meta=g.choice([None, None, 'fresh', 'shared'])), ops=ops)
+  knobs = dict(kind='struct', fields=fields, base=g.choice(['dataclass', 'PyTreeNode', 'dataclass_slots']), meta=g.choice([None, None, 'fresh', 'shared']))
+  # class hierarchies: the generated class (which never passes frozen=False itself) sits below a generated base class
+  knobs['parent'] = None
+  if g.random() < 0.45:
+    pfields = [dict(name=f'p{i}', static=g.random() < 0.3, shape=g.choice([[], [2], [2, 3]])) for i in range(g.randrange(1, 3))]
+    knobs['parent'] = dict(kind=g.choice(STRUCT_PARENTS), fields=pfields)
+  return dict(engine='valueworld', knobs=knobs, ops=ops)
 
 
 SHRINK_LISTS = ['ops']
@@ -396,10 +413,30 @@ class FWorld:
       else:
         add = build(self.plan['knobs']['srcs'][op['add'] % len(self.plan['knobs']['srcs'])])
         for d in nested_dicts(add, []):
-          self.mutables.append((d, 'copy-argument'))
+          self.mutables.append((d, 'copy-argument-wrapped' if op.get('wrap') else 'copy-argument'))
+      inner = add
+      wrap = op.get('wrap')
+      if wrap:
+        # a Mapping that is neither dict nor FrozenDict, over a dict the world holds: its nested dicts stay fair game
+        import collections
+        import types
+
+        if wrap == 'proxy':
+          add = types.MappingProxyType(inner)
+        elif wrap == 'userdict':
+          add = collections.UserDict(inner)
+        elif wrap == 'chainmap':
+          add = collections.ChainMap(inner)
+        elif wrap == 'chainmap_child':
+          add = collections.ChainMap(inner).new_child()
+        else:
+          raise kernel.HarnessError('unknown wrap ' + str(wrap))
+        if plain(dict(add)) != plain(inner):
+          raise kernel.HarnessError('mapping wrapper does not show the wrapped contents')
+        res.probe('copy_arg_mapping_wrapper')
       c = fd.copy(add) if op['how'] == 'method' else fd_mod.copy(fd, add)
       want = dict(plain(fd))
-      want.update(plain(add))
+      want.update(plain(inner))
       if not isinstance(c, FrozenDict) or plain(c) != want:
         raise Violation('copy-wrong', f'op {oi}: copy(add_or_replace) has wrong contents or type')
       self.track(c, 'copy')
@@ -581,10 +618,10 @@ class FWorld:
       else:
         d['only'] = oi
       res.fault('foreign_mutation:' + origin)
-      res.probe({'source': 'mutation_of_source_after_freeze', 'unfreeze': 'mutation_of_unfreeze_result', 'copy-argument': 'mutation_of_copy_argument'}.get(origin, 'mutation_of_handed_out_dict'))
+      res.probe({'source': 'mutation_of_source_after_freeze', 'unfreeze': 'mutation_of_unfreeze_result', 'copy-argument': 'mutation_of_copy_argument', 'copy-argument-wrapped': 'mutation_behind_mapping_wrapper'}.get(origin, 'mutation_of_handed_out_dict'))
     else:
       raise kernel.HarnessError('unknown op ' + k)
-    self.log.add(oi, k, op.get('how'))
+    self.log.add(oi, k, op.get('how'), *([op['wrap']] if op.get('wrap') else []))
 
 
 def _plain_tree(fd):
@@ -614,36 +651,79 @@ class SWorld:
   def __init__(self, plan, res, log):
     self.plan, self.res, self.log = plan, res, log
     k = plan['knobs']
-    self.fields = k['fields']
-    ann = {}
-    ns = {}
+    parent = k.get('parent')
+    # dataclass field order: inherited fields first, then the class's own, each in declaration order
+    self.fields = (parent['fields'] if parent else []) + k['fields']
+    self.refused = False
     # user metadata passed to struct.field: a fresh dict per field, or ONE dict object reused for every field
     mode = k.get('meta')
     shared = {'units': 'm'}
     self.meta_objs = []
-    for f in self.fields:
-      ann[f['name']] = object
-      kw = {}
-      if mode == 'fresh':
-        kw['metadata'] = {'units': 'm', 'doc': f['name']}
-      elif mode == 'shared':
-        kw['metadata'] = shared
-        res.probe('struct_shared_metadata')
-      if 'metadata' in kw:
-        self.meta_objs.append((kw['metadata'], dict(kw['metadata'])))
-      if f['static']:
-        ns[f['name']] = struct.field(pytree_node=False, default=0, **kw)
+
+    def namespace(fields):
+      ann = {}
+      ns = {}
+      for f in fields:
+        ann[f['name']] = object
+        kw = {}
+        if mode == 'fresh':
+          kw['metadata'] = {'units': 'm', 'doc': f['name']}
+        elif mode == 'shared':
+          kw['metadata'] = shared
+          res.probe('struct_shared_metadata')
+        if 'metadata' in kw:
+          self.meta_objs.append((kw['metadata'], dict(kw['metadata'])))
+        if f['static']:
+          ns[f['name']] = struct.field(pytree_node=False, default=0, **kw)
+        else:
+          ns[f['name']] = struct.field(default=None, **kw)
+      ns['__annotations__'] = ann
+      return ns
+
+    # the base class of the generated class (if any).  'plain' / 'plain_frozen': an ordinary @dataclasses.dataclass record;
+    # 'struct' / 'struct_unfrozen': a struct class of the same form as the child, the latter opting out with frozen=False
+    bases = ()
+    if parent:
+      pk = parent['kind']
+      pns = namespace(parent['fields'])
+      if pk == 'plain':
+        pcls = dataclasses.dataclass(type('GenBase', (), pns))
+      elif pk == 'plain_frozen':
+        pcls = dataclasses.dataclass(frozen=True)(type('GenBase', (), pns))
+      elif pk in ('struct', 'struct_unfrozen'):
+        pkw = {'frozen': False} if pk == 'struct_unfrozen' else {}
+        if k['base'] == 'PyTreeNode':
+          pcls = type('GenParentNode', (struct.PyTreeNode,), pns, **pkw)
+        elif k['base'] == 'dataclass_slots':
+          pcls = struct.dataclass(type('GenParentSlots', (), pns), slots=True, **pkw)
+        else:
+          pcls = struct.dataclass(type('GenParent', (), pns), **pkw)
       else:
-        ns[f['name']] = struct.field(default=None, **kw)
-    ns['__annotations__'] = ann
-    if k['base'] == 'dataclass_slots':
-      # dataclasses' own slots=True option: the decorator hands back a NEW class
-      self.cls = struct.dataclass(type('GenSlots', (), ns), slots=True)
-      res.probe('struct_slots')
-    elif k['base'] == 'dataclass':
-      self.cls = struct.dataclass(type('Gen', (), ns))
-    else:
-      self.cls = type('GenNode', (struct.PyTreeNode,), ns)
+        raise kernel.HarnessError('unknown parent kind ' + str(pk))
+      if dataclasses.is_dataclass(pcls) and pcls.__dataclass_params__.frozen != (pk not in UNFROZEN_PARENTS):
+        raise kernel.HarnessError(f'generated base class {pk} has frozen={pcls.__dataclass_params__.frozen}')
+      bases = (pcls,)
+    ns = namespace(k['fields'])
+    try:
+      if k['base'] == 'dataclass_slots':
+        # dataclasses' own slots=True option: the decorator hands back a NEW class
+        self.cls = struct.dataclass(type('GenSlots', bases, ns), slots=True)
+        res.probe('struct_slots')
+      elif k['base'] == 'dataclass':
+        self.cls = struct.dataclass(type('Gen', bases, ns))
+      elif bases and not issubclass(bases[0], struct.PyTreeNode):
+        self.cls = type('GenNode', bases + (struct.PyTreeNode,), ns)  # class S(Base, struct.PyTreeNode)
+      else:
+        self.cls = type('GenNode', bases or (struct.PyTreeNode,), ns)
+    except TypeError as e:
+      # a struct class that does not say frozen=False cannot sit below a non-frozen dataclass: Python refuses the definition
+      if not (parent and parent['kind'] in UNFROZEN_PARENTS and 'frozen' in str(e)):
+        raise
+      res.probe('struct_unfrozen_base_refused')
+      self.refused = True
+      return
+    if parent:
+      res.probe('struct_inherited_layout')
     self.traces = 0
     self.seen = set()
 
@@ -667,6 +747,21 @@ class SWorld:
     want = [getattr(self.insts[0], fl['name']) for fl in self.fields if not fl['static']]
     if len(leaves) != len(want) or any(a is not b for a, b in zip(leaves, want)):
       raise Violation('pytree-leaves', 'pytree leaves are not exactly the fields declared without pytree_node=False')
+    if parent:
+      # whatever the base class is, the class did not ask for frozen=False: no field of an instance, data or static,
+      # inherited or own, accepts assignment
+      scratch = self.make(1)
+      for fl in self.fields:
+        old = getattr(scratch, fl['name'])
+        try:
+          setattr(scratch, fl['name'], 123)
+          raised = False
+        except Exception:  # noqa: BLE001
+          raised = True
+        if not raised or getattr(scratch, fl['name']) is not old:
+          what = 'pytree_node=False' if fl['static'] else 'data'
+          raise Violation('mutation-accepted', f'struct class declared without frozen=False below a {parent["kind"]} base ({k["base"]} form): assignment to {what} field {fl["name"]} of an instance did not raise')
+      res.probe('struct_frozen_checked')
 
   def make(self, val):
     kw = {}
@@ -791,6 +886,7 @@ def execute(plan):
   log = kernel.Log()
   k = plan['knobs']
   viol = None
+  nops = len(plan['ops'])
   try:
     if k['kind'] == 'frozen':
       w = FWorld(plan, res, log)
@@ -802,10 +898,15 @@ def execute(plan):
     else:
       res.probe('struct_runs')
       w = SWorld(plan, res, log)
-      for oi, op in enumerate(plan['ops']):
-        w.step(oi, op)
-      res.nontrivial = len(plan['ops']) >= 3
-      log.add('traces', w.traces)
+      if w.refused:
+        # the class could not be defined: there is no instance to run the history on
+        log.add('refused', k['parent']['kind'], k['base'])
+        nops = 0
+      else:
+        for oi, op in enumerate(plan['ops']):
+          w.step(oi, op)
+        res.nontrivial = len(plan['ops']) >= 3
+        log.add('traces', w.traces)
   except Violation as v:
     viol = dict(kind=v.kind, detail=v.detail)
   except kernel.HarnessError:
@@ -814,8 +915,8 @@ def execute(plan):
     if not kernel.through_sut(e, markers=('/flax/', '/jax/')):
       raise
     viol = dict(kind='unexpected-exception', detail=f'{type(e).__name__}: {e}')
-  res.steps = len(plan['ops'])
-  res.ops = len(plan['ops'])
+  res.steps = nops
+  res.ops = nops
   res.digest = log.digest()
   res.violation = viol
   return res
